@@ -125,6 +125,12 @@ pub fn lanes_dir() -> PathBuf {
     vcommon::side_dir().unwrap_or_else(|| PathBuf::from(WORK)).join("lanes")
 }
 
+/// Root of the repository whose runtime crates the generated applications depend on (`PX_REPO_ROOT` is a
+/// debugging aid for side runs against a scratch worktree; the registered commands use /repo).
+pub fn repo_root() -> String {
+    std::env::var("PX_REPO_ROOT").ok().filter(|s| !s.is_empty()).unwrap_or_else(|| "/repo".to_string())
+}
+
 /// The compiler binary under test (`PX_PAVEXC_BIN` is a debugging aid for side runs).
 pub fn pavexc_bin() -> String {
     std::env::var("PX_PAVEXC_BIN").ok().filter(|s| !s.is_empty()).unwrap_or_else(|| PAVEXC.to_string())
@@ -206,7 +212,7 @@ impl Lane {
         }
         w(
             ws.join("app/Cargo.toml"),
-            "[package]\nname = \"app\"\nversion = \"0.1.0\"\nedition = \"2024\"\n\n[lints.rust.unexpected_cfgs]\nlevel = \"allow\"\ncheck-cfg = [\"cfg(pavex_ide_hint)\"]\n\n[dependencies]\npavex = { path = \"/repo/runtime/pavex\" }\nserde = { version = \"1\", features = [\"derive\"] }\n",
+            &"[package]\nname = \"app\"\nversion = \"0.1.0\"\nedition = \"2024\"\n\n[lints.rust.unexpected_cfgs]\nlevel = \"allow\"\ncheck-cfg = [\"cfg(pavex_ide_hint)\"]\n\n[dependencies]\npavex = { path = \"/repo/runtime/pavex\" }\nserde = { version = \"1\", features = [\"derive\"] }\n".replace("/repo", &repo_root()),
         );
         w(ws.join("app/src/rt.rs"), emit::RT_RS);
         w(ws.join("app/src/main.rs"), emit::MAIN_RS);
@@ -228,7 +234,7 @@ impl Lane {
         }
         w(
             ws.join("driver/Cargo.toml"),
-            "[package]\nname = \"driver\"\nversion = \"0.1.0\"\nedition = \"2024\"\n\n[dependencies]\napp = { path = \"../app\" }\nsdk = { path = \"../sdk\" }\npavex = { path = \"/repo/runtime/pavex\" }\ntokio = { version = \"1\", features = [\"rt-multi-thread\", \"net\"] }\nserde_json = \"1\"\n",
+            &"[package]\nname = \"driver\"\nversion = \"0.1.0\"\nedition = \"2024\"\n\n[dependencies]\napp = { path = \"../app\" }\nsdk = { path = \"../sdk\" }\npavex = { path = \"/repo/runtime/pavex\" }\ntokio = { version = \"1\", features = [\"rt-multi-thread\", \"net\"] }\nserde_json = \"1\"\n".replace("/repo", &repo_root()),
         );
         w(ws.join("driver/src/main.rs"), &emit::DRIVER_MAIN_RS.replace("SDK_PREBUILT_ARGS", ""));
     }
